@@ -104,6 +104,13 @@ class GitStore_iterblobs:
           params={"content": "opaque:Chunks", "name": "str", "extra_file_handlers": "opaque:Handlers"},
           returns="opaque:File")
 class open_by_extension_c:
+    """file_of(content, name, handlers) names the file object a name resolves to: the one its
+    guessed (or the default) MIME type selects (definition, unfolded here)."""
+
+    def define_file_of(content, name, extra_file_handlers):
+        return forall("opaque:Chunks", lambda c: forall("str", lambda n: forall("opaque:Handlers", lambda h:
+                      file_of(c, n, h) == file_by_ct(c, default_mime(n), h))))
+
     def ensures(content, name, extra_file_handlers, result):
         return result == file_of(content, name, extra_file_handlers)
 
